@@ -46,6 +46,9 @@ def cpython_tokens(src: str, allow_fstrings: bool = False) -> tuple[str, Any]:
                     ast.literal_eval(t.string)
             except (SyntaxError, ValueError):
                 return "outside", "lenient-number"
+        if name == "NAME" and not t.string.isascii() and not t.string.isidentifier():
+            # the tokenize module hands out any run of non-ASCII characters as a NAME ('€', a byte-order mark): not a name
+            return "outside", "lenient-name"
         if name == "OP":
             if t.string == "<>":
                 return "outside", "lenient-<>"
@@ -81,11 +84,16 @@ def compare(src: str, allow_fstrings: bool = False) -> tuple | None:
     if st != "ok":
         return ("diff", f"TOKENS ours-raises {type(ours).__name__}", run.exc_brief(ours))
     n = min(len(ours), len(theirs))
+    lines = src.split("\n")
     for i in range(n):
         a, b = ours[i], theirs[i]
         if a[0] != b[0]:
             return ("diff", f"TOKENS type {a[0]} vs {b[0]}", {"index": i, "ours": a, "cpython": b})
         if a[0] in _VALUED and a != b:
+            if a[:3] == b[:3] and b[2][0] != b[3][0] and a[3][0] == b[3][0] and not lines[b[3][0] - 1].isascii():
+                # CPython 3.12.1's tokenize module reports the end column of a token that spans lines as a BYTE offset
+                # (it even overlaps the next token then): not compared when the token's last line holds non-ASCII text
+                continue
             what = "string" if a[1] != b[1] else ("start" if a[2] != b[2] else "end")
             return ("diff", f"TOKENS {a[0]} {what}", {"index": i, "ours": a, "cpython": b})
     if len(ours) != len(theirs):
